@@ -26,6 +26,9 @@ CHECKS = {
  "C10": ("fault_enumeration", "6/C10",
   "SM9 encryption sessions covering every length 1..=255 with library or reference encryptor (r scripted: exact ciphertext comparison with GM/T 0044.4, Annex A example, scripted r with K1 = 0 forcing the retry branch), then per seeded sample every bit flip, truncation, extension, identity change, C1 substitution and crafted victim-consistent off-curve C1 is delivered to decrypt, which must answer Ok or Err and return a plaintext only where the strict reference decryptor returns the same one.",
   "deterministic simulation: multi-party sessions with reference peers, scripted r via RNG seam, transport-fault enumeration incl. adversarially crafted ciphertexts"),
+ "C14": ("fault_enumeration", "6/C14",
+  "All 11 randomised call sites of gm-sm2 and gm-sm9 run behind the RNG seam. Enumerated per site: each out-of-range candidate of the menu offered first (and doubled, and eight in a row for the draw budget), each in-range edge candidate; seeded M1 runs of several calls per world. The scalar actually used is recovered from each call's output by the reference (algebraically for SM2 signatures, by matching C1/R/(h,S) otherwise) and must have been offered in that very call, lie in [1, order-1] and never repeat. M3 (labelled non-replayable) observes the real generator through the seam: per-bit frequency against the exact uniform expectation at 8 sigma, duplicates, and three fresh processes that must not share a scalar.",
+  "deterministic simulation: RNG-fault enumeration at the random-source seam, scalar recovery by the reference, plus observed real source with restart"),
  "C15": ("fault_enumeration", "6/C15",
   "The four-message SM2 key agreement between parties played by the library or the reference: honest runs with scripted ephemeral scalars (R, S_B, S_A, K compared exactly with GB/T 32918.3 incl. the Annex A example; mixed pairs must complete), then all 16 subsets of the four messages x 3 tamper kinds plus faults on the responder's stored R_A per sample; each library step is judged by the reference party in the same position on the same delivered bytes.",
   "deterministic simulation: two-party protocol histories, scripted ephemeral scalars, tamper-subset enumeration against a reference party"),
